@@ -21,6 +21,8 @@ def x_obligations(tier):
             o.append(Obl(f"C17-crash[{sid},first-write={first},long-then-shorter]", M, "crash",
                          env={"VF_SID": sid, "VF_OTHER": other, "VF_FIRST_WRITE": str(first), "VF_OLD_K": "0", "VF_OLD_V": "0", "VF_NEW_K": "0", "VF_NEW_V": "1", "VF_NEXT": "shorten"}, timeout=T, family="C17-crash",
                          bound="as C17-crash; the interrupted write carries a long value, the next completed write a one-character value for the same key"))
+        o.append(Obl(f"C17-crash[{sid},nested value]", M, "crash", env={"VF_SID": sid, "VF_OTHER": other, "VF_FIRST_WRITE": "0", "VF_OLD_K": "0", "VF_OLD_V": "0", "VF_NEW_K": "1", "VF_NEW_V": "4", "VF_NESTED": "1"},
+                     timeout=T, family="C17-crash", bound="as C17-crash; the written value is a nested mapping and one of the torn-write lengths ends exactly after its inner closing brace"))
         for mode in range(4):
             for lo in ((0, 20, 40, 60) if mode == 0 else (0,)):
                 if tier == "quick" and sid != "h/a/x/v1/m" and lo:
